@@ -237,7 +237,8 @@ def run(rep):
         raise tlc.MachineryError("canary: off-by-one wrap deviation not refuted by Fifo")
 
     # multi-task
-    mts = [(2, 2, 5)] if quick else [(2, 2, 6), (3, 2, 5), (2, 3, 7)]
+    # three tasks are needed to tell per-task copies from one shared copy for tasks >= 1
+    mts = [(2, 2, 5), (3, 2, 4)] if quick else [(2, 2, 6), (3, 2, 5), (2, 3, 7)]
     for k, n, m in mts:
         c = dict(K=k, N=n, MaxAdds=m, MaxBatch=2, EMIT=False)
         r = tlc.run("MultiTask", tlc.cfg_text(constants=c, invariants=MT_INVS, properties=["TaskIsolation"]), coverage=True, tag="mt")
